@@ -71,6 +71,7 @@ type sut struct {
 	wlLabels map[string]string
 	policies []model.AuthorizationPolicy // in creation order
 	forTCP   bool
+	shapeTCP bool // the chain is made of network filters (build tcp), not HTTP filters
 	// CUSTOM action: extension providers defined in the mesh config, multi-provider feature flag
 	providers []string
 	multi     bool
@@ -276,6 +277,7 @@ func (s *sut) newBuilders(useAuth bool) [2]*authzplugin.Builder {
 // The CUSTOM builder's filters come first, as the listener builder orders them.
 func (s *sut) build(kind string, useAuth bool, class string) {
 	s.forTCP = kind != "http"
+	s.shapeTCP = kind == "tcp"
 	bs, ok := s.builders[useAuth]
 	if !ok {
 		bs = s.newBuilders(useAuth)
@@ -433,10 +435,21 @@ func (s *sut) apply(f []string) (out string) {
 			class = f[3]
 		}
 		s.build(f[1], f[2] == "1", class)
-		return canonFilters(s.built)
+		out := canonFilters(s.built)
+		// for policies the validator accepts the generated config must be one Envoy accepts (protoc-gen-validate
+		// constraints of the RBAC / ext_authz protos); the model has no such mark: a rejected config shows as a
+		// difference and the oracle reports it. (Validator-rejected keys such as request.headers[] do give
+		// invalid matchers - empty header name - outside the property's quantifier.)
+		if envoyRejects(s.built) != "" && s.valid() {
+			out += " ENVOY-REJECTS-CONFIG"
+		}
+		return out
 	case "req":
 		r := parseReq(f[1:])
-		return decTok(evalFilters(s.built, r)) + " " + decTok(specDecision(s, r))
+		// decision of the generated filters, decision of the statement, ext_authz filters consulted, providers the
+		// statement says must be asked
+		return decTok(evalFilters(s.built, r)) + " " + decTok(specDecision(s, r)) +
+			" ext=" + wire.EncList(extAuthzAsked(s.built, r)) + " ask=" + wire.EncList(customAsks(s, r))
 	}
 	return "bad-op"
 }
